@@ -95,6 +95,7 @@ structure Mod where
   inCtx : Bool := true             -- still in its context's module table
   pipe : Option (List Msg) := none -- mailbox (the pub/sub pipe); none while closed
   pipePolled : Bool := false
+  pipeSkip : Nat := 0       -- kernel: messages already read out of the pipe's first page (a page is released only when it is empty)
   pipeGen : Nat := 0        -- how many pipes the module has had (each start creates a new one, with a new PS source)
   srcs : List SrcId := []          -- registered sources (all kinds but subscriptions)
   subs : List SrcId := []          -- subscriptions
@@ -118,6 +119,7 @@ structure Ctx where
   finalized : Bool := false
   persist : Bool := false
   destroying : Bool := false
+  stopping : Bool := false          -- the loop is being stopped: the final flush is running callbacks
   currMod : Option ModId := none
   running : Nat := 0
   recvMsgs : Nat := 0
